@@ -10,6 +10,7 @@ import Driver.Aggregation
 import Driver.KeepAlive
 import Driver.Sampling
 import Driver.Naming
+import Driver.Wrappers
 /-!
 `driver <engine>`: reads one request per line on stdin, prints one reply per line.
 Every engine is a pure function `String → String` of the request line (stateful models receive the
@@ -28,7 +29,8 @@ def engines : List (String × (String → String)) := [
   ("aggregation", Driver.Aggregation.handle),
   ("keepalive", Driver.KeepAlive.handle),
   ("sampling", Driver.Sampling.handle),
-  ("naming", Driver.Naming.handle)
+  ("naming", Driver.Naming.handle),
+  ("wrappers", Driver.Wrappers.handle)
 ]
 
 partial def loop (h : IO.FS.Stream) (out : IO.FS.Stream) (f : String → String) : IO Unit := do
